@@ -281,7 +281,7 @@ fn scenario_restart(rng: &mut Rng, id: String, rep: &mut Report, props: &[&str])
     w.edit(0, *rng.pick(&["o", "", "a", "fo"]));
     let n_old = rng.range(50, 1500);
     w.push_via(k, n_old, true);
-    let variant = rng.below(5);
+    let variant = rng.below(7);
     let clear = rng.coin();
     let mut gap_behind = 0usize;
     // old injectors keep pushing from two threads across all of it
@@ -365,6 +365,85 @@ fn scenario_restart(rng: &mut Rng, id: String, rep: &mut Report, props: &[&str])
             // restart before the first tick ever
             w.restart(clear);
             rep.count("directed.restart.before-first-tick");
+        }
+        5 => {
+            // the first run over the new stream is cancelled by a pattern edit while the snapshot still shows the old stream
+            // (usually nobody but the snapshot keeps the old stream alive)
+            if rng.chance(3, 4) {
+                stop.store(true, Ordering::Relaxed);
+                for p in pushers.drain(..) {
+                    let _ = p.join();
+                }
+                w.drop_injector(k);
+            }
+            // (a run only ends as cancelled if its sort is large enough to look at the flag: several thousand matches)
+            if w.texts[0].is_empty() {
+                w.edit(0, *rng.pick(&["o", "a"]));
+            }
+            while w.tick(20).running {}
+            w.restart(false);
+            let k2 = w.new_injector();
+            let n = if rng.chance(2, 3) { rng.range(5000, 12000) } else { rng.range(1, 300) };
+            w.push_via(k2, n, true);
+            wait_no_run_pending(2000);
+            let phase = *rng.pick(&[Point::RunEntry, Point::RunAfterResetMatches, Point::RunAfterScan, Point::RunBeforeSort]);
+            pause_at(phase);
+            let st = w.tick(0);
+            rep.count(&format!("tick.changed={}.running={}", st.changed, st.running));
+            if wait_paused(0, 1500) {
+                let t = format!("{}{}", w.texts[0], rng.pick(&['o', 'a']));
+                if rng.coin() {
+                    w.edit(0, &t);
+                } else {
+                    w.edit(0, *rng.pick(&["b", "x", ""]));
+                }
+                // the run that the cancelling tick spawns is held at its entry: the tick's second phase times out and the
+                // state between "cancelled run discarded" and "new results picked up" stays observable
+                let hold_next = rng.chance(2, 3);
+                let timeout = if hold_next { 0 } else { 10 };
+                let ticked = std::thread::scope(|s| {
+                    let wref = &mut w;
+                    let h = s.spawn(move || wref.tick(timeout));
+                    std::thread::sleep(Duration::from_micros(300 + rng.below(3000) as u64));
+                    if hold_next {
+                        release_to(0, Some(Point::RunEntry));
+                    } else {
+                        release(0);
+                    }
+                    h.join().unwrap()
+                });
+                if hold_next {
+                    if !wait_paused(0, 300) {
+                        cancel_pause(0);
+                    }
+                    release(0);
+                }
+                rep.count(&format!("tick.changed={}.running={}", ticked.changed, ticked.running));
+                rep.count("directed.restart.first-run-on-the-new-stream-cancelled");
+            } else {
+                cancel_pause(0);
+                rep.count("directed.phase-not-reached");
+            }
+        }
+        6 => {
+            // an empty new stream with exactly one injector whose first run is not picked up, then another restart: the
+            // injector of the abandoned stream keeps pushing
+            while w.tick(20).running {}
+            w.restart(false);
+            let k_old = w.new_injector();
+            wait_no_run_pending(2000);
+            pause_at(Point::RunEntry);
+            let st = w.tick(0);
+            rep.count(&format!("tick.changed={}.running={}", st.changed, st.running));
+            if !wait_paused(0, 1500) {
+                cancel_pause(0);
+            }
+            release(0);
+            wait_no_run_pending(2000);
+            w.restart(rng.coin());
+            w.check_active_injectors("restart of an untouched stream");
+            w.push_via(k_old, rng.range(1, 5), false);
+            rep.count("directed.restart.untouched-stream-with-one-injector");
         }
         _ => {
             while w.tick(20).running {}
